@@ -354,29 +354,29 @@ Qed.
 Lemma agrees_refl cp b0 : agrees cp b0 [] b0.
 Proof. intros x _. reflexivity. Qed.
 
-Lemma upload_all_spec fa cp dst files b0 :
+Lemma upload_all_spec fa cp dst files s :
   pfx_ok cp = true -> relb dst = true -> Forall (fun f => relb (uf_rel f) = true) files ->
-  clear_under cp dst b0 ->
-  let out := upload_all fa cp dst files (init_st b0) in
-  (exists uploaded, fst out = Ok uploaded /\ agrees cp b0 uploaded (st_b (snd out)) /\
-     (forall p, In p uploaded -> bk_get (join cp p) b0 = None) /\
-     st_n (snd out) = upload_cost files /\ miss fa 0 (upload_cost files)) \/
-  (fst out = Err /\ (forall x, bk_get x (st_b (snd out)) = bk_get x b0) /\
-   hit fa 0 (st_n (snd out))).
+  clear_under cp dst (st_b s) ->
+  let out := upload_all fa cp dst files s in
+  (exists uploaded, fst out = Ok uploaded /\ agrees cp (st_b s) uploaded (st_b (snd out)) /\
+     (forall p, In p uploaded -> bk_get (join cp p) (st_b s) = None) /\
+     st_n (snd out) = st_n s + upload_cost files /\ miss fa (st_n s) (st_n s + upload_cost files)) \/
+  (fst out = Err /\ (forall x, bk_get x (st_b (snd out)) = bk_get x (st_b s)) /\
+   hit fa (st_n s) (st_n (snd out))).
 Proof.
-  intros Hc Hd Hf Hclear. cbn zeta. unfold upload_all, do_with_rollback.
+  intros Hc Hd Hf Hclear. cbn zeta. unfold upload_all, do_with_rollback. set (b0 := st_b s) in *.
   apply upload_order_forall in Hf. rewrite <- (upload_order_cost files).
-  pose proof (upload_loop_spec fa cp dst b0 (upload_order files) [] (init_st b0) (agrees_refl cp b0)) as H.
-  cbn zeta in H. destruct (upload_loop fa cp dst (upload_order files) [] (init_st b0)) as [[r done'] s1].
+  pose proof (upload_loop_spec fa cp dst b0 (upload_order files) [] s (agrees_refl cp b0)) as H.
+  cbn zeta in H. destruct (upload_loop fa cp dst (upload_order files) [] s) as [[r done'] s1].
   cbn [fst snd] in H. destruct H as (Hag & Hall & Hres).
   assert (Habs : forall p, In p done' -> bk_get (join cp p) b0 = None).
   { rewrite Forall_forall in Hall, Hf. intros p Hp. destruct (Hall p Hp) as [[] | (f & Hin & ->)].
     apply (clear_get_none (request_prefix cp dst)); [exact Hclear|]. apply under_prefix; auto. }
   destruct Hres as [(-> & Hn & Hm & _) | (-> & Hlt & Hh)].
-  - left. exists done'. cbn [fst snd init_st st_n] in *. repeat split; auto.
+  - left. exists done'. cbn [fst snd] in *. repeat split; auto.
   - right. cbn [fst snd]. split; [reflexivity|]. split.
     + apply rollback_restores; auto. eapply hit_past; exact Hh.
-    + cbn [init_st st_n] in Hh. eapply hit_widen; [exact Hh|lia|]. apply rollback_n_mono.
+    + eapply hit_widen; [exact Hh|lia|]. apply rollback_n_mono.
 Qed.
 
 (* ------------------------------------------------------------------ find_files: the delimited listing of the object root *)
@@ -751,14 +751,14 @@ Proof.
   - eapply frame_trans; eauto.
 Qed.
 
-Lemma get_each_spec cp : forall paths s,
-  get_each cp paths s =
-  (map (fun p => (p, bk_get (join cp p) (st_b s))) paths,
+Lemma get_each_spec cp : forall paths rn s,
+  get_each None rn cp paths s =
+  (Ok (map (fun p => (p, bk_get (join cp p) (st_b s))) paths),
    mkSt (st_b s) (st_n s) (st_log s ++ map (fun p => RGet (join cp p)) paths)).
 Proof.
-  induction paths as [|p r IH]; intros s; cbn [get_each map].
+  induction paths as [|p r IH]; intros rn s; cbn [get_each map].
   - rewrite app_nil_r. now destruct s.
-  - unfold get_object. rewrite IH. cbn [st_b st_n st_log]. rewrite <- app_assoc. reflexivity.
+  - unfold get_object. cbn [read_fails]. cbv iota. rewrite IH. cbn [st_b st_n st_log]. rewrite <- app_assoc. reflexivity.
 Qed.
 
 (* ------------------------------------------------------------------ undoing a failed install (commit 9053efb) *)
@@ -770,7 +770,7 @@ Proof.
   - intros H. exists x. split; [assumption|apply bytes_eqb_refl].
 Qed.
 
-(** [T] = the bucket as it was when the install began.  If the fault has passed, the new
+(** [T] = the bucket as it was read before the commit wrote anything.  If the fault has passed, the new
     declaration is found by the listing exactly when it was stored, and the root inventory
     pair existed, then after the undo every key outside the uploaded ones reads as in [T],
     and the uploaded ones are gone *)
@@ -779,7 +779,8 @@ Lemma undo_install_spec fa cp i olds T uploaded s :
   nv_old_sidecar i = uf_rel (nv_sidecar i) ->
   bk_get (inv_key cp i) T <> None -> bk_get (sc_key cp i) T <> None ->
   (forall nn, new_namaste (nv_root i) (nv_upgrade i) = Some nn -> (In nn olds <-> bk_get (join cp nn) T <> None)) ->
-  frame (install_writes cp i) (map (join cp) olds) T (st_b s) ->
+  (forall x, existsb (bytes_eqb x) (map (join cp) uploaded) = false -> ~ In x (install_writes cp i) ->
+     bk_get x (st_b s) = bk_get x T \/ (bk_get x (st_b s) = None /\ In x (map (join cp) olds))) ->
   let s' := undo_install fa cp i olds (map (fun p => (p, bk_get (join cp p) T)) olds)
                          (bk_get (inv_key cp i) T) (bk_get (sc_key cp i) T) uploaded s in
   forall x, bk_get x (st_b s') = if existsb (bytes_eqb x) (map (join cp) uploaded) then None else bk_get x T.
@@ -814,8 +815,8 @@ Proof.
   cbn zeta in D1, D2, D3. fold (sc_key cp i) in D1, D2, D3.
   set (s4 := restore_object fa cp (join (nv_root i) (uf_rel (nv_sidecar i))) (bk_get (sc_key cp i) T) s3) in *.
   intros x. rewrite rollback_spec by assumption.
-  destruct (existsb (bytes_eqb x) (map (join cp) uploaded)); [reflexivity|].
-  change (fixed T (st_b s4) x).
+  destruct (existsb (bytes_eqb x) (map (join cp) uploaded)) eqn:Xu; [reflexivity|].
+  specialize (Hfr x Xu). change (fixed T (st_b s4) x).
   destruct (bytes_eqb x (sc_key cp i)) eqn:Xs; [apply bytes_eqb_eq in Xs; subst x; auto|].
   destruct (bytes_eqb x (inv_key cp i)) eqn:Xi; [apply bytes_eqb_eq in Xi; subst x; auto|].
   apply bytes_eqb_false in Xs, Xi.
@@ -827,14 +828,14 @@ Proof.
       * apply in_existsb_eqb in X. apply B3; [assumption|]. now apply (Hnew nn eq_refl).
       * apply B2, (A3 nn eq_refl). intros Hin. apply in_existsb_eqb in Hin. congruence.
     + apply bytes_eqb_false in Xn.
-      destruct (Hfr x) as [E | [E Hin]].
+      destruct Hfr as [E | [E Hin]].
       { unfold install_writes, new_key. rewrite N. cbn [In]. intuition congruence. }
       * apply B2, A2. exact E.
       * apply in_map_iff in Hin as (o & <- & Ho).
         destruct (bk_get (join cp o) T) eqn:G.
         -- apply B3; [assumption|congruence].
         -- apply B2, A2. unfold fixed. congruence.
-  - destruct (Hfr x) as [E | [E Hin]].
+  - destruct Hfr as [E | [E Hin]].
     { unfold install_writes, new_key. rewrite N. cbn [In]. intuition congruence. }
     + apply B2, A2. exact E.
     + apply in_map_iff in Hin as (o & <- & Ho).
